@@ -169,6 +169,14 @@ def main():
                         if j == 0:
                             recs.append(record("x" + chr(cp) + chr(m) + chr(marks[(cp + 7) % len(marks)]) + "y"))
                 k += 1
+    # runs of marks after one base: listed accents of different combining classes in any order, mixed with marks that have no TeX
+    # command and with class-0 marks (variation selector, grapheme joiner, a Thai vowel sign), which block canonical reordering
+    RUN_MARKS = ["\u0301", "\u0300", "\u0308", "\u0327", "\u0323", "\u030c", "\u0328", "\u0305", "\u0332", "\u0313", "\u0345",
+                 "\ufe0f", "\u034f", "\u0e31", "\u093e"]
+    for _ in range(job.get("random", 0) // 4):
+        base = rng.choice(list("aeouAEnsxy") + ["\u03b1", "\u00ea", "\u0e01"])
+        run = "".join(rng.choice(RUN_MARKS) for _ in range(rng.randint(2, 4)))
+        recs.append(record(rng.choice(["", "x", "ab "]) + base + run + rng.choice(["", "z", " q"])))
     for _ in range(job.get("random", 0)):
         n = rng.randint(0, 12)
         text = "".join(rng.choice(POOL) for _ in range(n))
